@@ -3,9 +3,10 @@ CONSTANT ALPHA = 3
 CONSTANT GEN = 3
 CONSTANT DropKind = "none"
 CONSTANT DropIdx = 0
-CONSTANT Cases <- CasesDeg
+CONSTANT Cases <- CasesDegCanary
 CONSTANT Sel = {}
+CONSTANT DegShift = 1
 INIT InitDeg
 NEXT NextDeg
-INVARIANT DegreeTightInv
+INVARIANT DegreeInv
 CHECK_DEADLOCK FALSE
